@@ -78,6 +78,6 @@ partial def loop (h : IO.FS.Stream) (out : IO.FS.Stream) (s : DState) : IO Unit 
 def main : IO Unit := do
   let stdin ← IO.getStdin
   let stdout ← IO.getStdout
-  loop stdin stdout { threshold := Cst.SourceFacts.childrenCacheThreshold,
-                      cmp := Cst.SourceFacts.nodeCacheComparesChildren,
-                      dbgWindow := (Cst.SourceFacts.debugAbbrevThreshold, Cst.SourceFacts.debugWindowLo, Cst.SourceFacts.debugWindowHi) }
+  loop stdin stdout { threshold := Cst.DriverFacts.childrenCacheThreshold,
+                      cmp := Cst.DriverFacts.nodeCacheComparesChildren,
+                      dbgWindow := (Cst.DriverFacts.debugAbbrevThreshold, Cst.DriverFacts.debugWindowLo, Cst.DriverFacts.debugWindowHi) }
